@@ -26,3 +26,10 @@ check(
     "Least squares itself (LAPACK/NNLS), IRLS convergence and the 'fraction q below the line' consequence are outside the claim. Reals not floats. sklearn predict / mean_absolute_error stubbed by their documented contracts.",
     "DESIGN.md 3.C05",
 )
+check(
+    "C13",
+    "bounded symbolic execution (SX, z3 LRA+UF): log/exp as uninterpreted functions with ground inverse-pair axioms; random permutations as symbolic Distinct ints realised exhaustively; recording stub estimators with symbolic outputs",
+    "For every name in available_fcts() and symbolic targets in the domain: reciprocal(transform(y)) == y, NaN stays NaN, X untouched; TransformedTargetRegressor2 trains its regressor on f(y) and predicts f^-1(g(x)). For every permutation of <=3/4 label codes (all explored) and 7/8 label sets: permutation round trip, classifier trained on the permuted target, predict returns original labels, probability column j is the j-th sorted label's and classes_[j] names it -- also after the same instance is refitted on another label set.",
+    "Float round-off of exp(log y) outside the claim; closest=True search outside; inner estimators are stubs; label sets concrete. String labels are a listed known finding.",
+    "DESIGN.md 3.C13",
+)
